@@ -27,6 +27,11 @@ def r1_encode_cast(ctx):
         return
     cfg, conds, o = ctx.cfg(enc), ctx.conds(enc), ctx.origins(enc)
     casts = [c for c in narrowing_casts(enc) if c["to"] == "u16"]
+    if not casts:
+        le_ = [x for x in C03.layout(ctx, enc, "put") if x[0] == "put_u16"]
+        if le_ and C03.checked_len_conversion(le_[0][3][1]):
+            ctx.ob("R01.1", "encode:payload-length-cast", True, le_[0][2].site, "the length field is u16::try_from(item.data.len())?: lossless, and an oversized payload is an error")
+            return
     if not ctx.floor("R01.1", "usize->u16 cast in encode", len(casts), 1):
         return
     for c in casts:
